@@ -5,6 +5,7 @@ SPINN.__call__/eval_nn, _SPINN.__call__, create_SPINN, HYPERPINN.eval_nn/_hyper_
 Inner networks, transforms and the hyper-network are uninterpreted.
 """
 import itertools
+from typing import Any
 from contracts.common import *
 import jinns.utils._pinn as pinn_mod
 from jinns.utils._pinn import PINN, create_PINN, _MLP
@@ -25,23 +26,37 @@ def _eqt(kind):
     return {"ODE": "ODE", "statio": "statio_PDE", "nonstatio": "nonstatio_PDE"}[kind]
 
 
-def pinn_ob(kind, d, m, tshape, oslice, tout_shape, transforms, bare):
-    """d = spatial dim; tout_shape: shape returned by the output transform ('same' = identity transform)"""
+class _RawShape(eqx.Module):
+    """a user network whose raw output is not a plain (m,) vector: a 0-d value (`scalar`, m = 1) or a (1, m) row (`row`)"""
+    inner: Any
+    mode: str = eqx.field(static=True)
+
+    def __call__(self, x):
+        y = self.inner(x)
+        return y[0] if self.mode == "scalar" else y[None, :]
+
+
+def pinn_ob(kind, d, m, tshape, oslice, tout_shape, transforms, bare, raw=None):
+    """d = spatial dim; tout_shape: shape returned by the output transform ('same' = identity transform);
+    raw: None | 'scalar' | 'row' — shape of the wrapped network's raw output (see _RawShape)"""
     din = {"ODE": 1, "statio": d, "nonstatio": 1 + d}[kind]
     q = 2     # width after the input transform
     name = (f"C10/PINN.__call__/ensures[{kind},d={d},m={m},t={tshape},output_slice={oslice and (oslice.start, oslice.stop)},"
-            f"Tout={tout_shape},transforms={int(transforms)},bare_nn_params={int(bare)}]")
+            f"Tout={tout_shape},transforms={int(transforms)},bare_nn_params={int(bare)}{'' if raw is None else ',raw_network_output=' + raw}]")
     def build():
         Tin = OpaqueFn("Tin", [(din,), ()], (q,))
         mo = (m,) if m > 1 else ()
         To = OpaqueFn("Tout", [(din,), mo, ()], tout_shape if tout_shape != "same" else mo)
         F = Opaque("M", (q if transforms else din) + 1, m)
-        u = PINN(mlp=OpaqueMLP(theta=jnp.zeros((1,)), F=F), slice_solution=jnp.s_[0:m], eq_type=_eqt(kind),
+        mlp_ = OpaqueMLP(theta=jnp.zeros((1,)), F=F)
+        if raw is not None:
+            mlp_ = _RawShape(inner=mlp_, mode=raw)
+        u = PINN(mlp=mlp_, slice_solution=jnp.s_[0:m], eq_type=_eqt(kind),
                  input_transform=(lambda i, p: Tin(i, p.eq_params["a"])) if transforms else ident_in,
                  output_transform=(lambda i, o, p: To(i, o, p.eq_params["a"])) if transforms else ident_out,
                  output_slice=oslice)
         def fn(th, t, x, a):
-            nn = eqx.tree_at(lambda z: z.theta, u.params, th)
+            nn = eqx.tree_at(lambda z: (z.inner.theta if raw is not None else z.theta), u.params, th)
             params = nn if bare else Params(nn_params=nn, eq_params={"a": a})
             if kind == "ODE":
                 return u(t, params)
@@ -155,14 +170,26 @@ def spinn_ob(kind, d, r, m, B, bare=False):
                          "jinns.utils._spinn:_SPINN.__call__", "jinns.utils._spinn:create_SPINN"])
 
 
-def hyper_ob(kind, d, m, hp_shapes, transforms, order=None, tshape=(1,)):
+class AdaptiveTanh(eqx.Module):
+    """an activation with a trainable scalar (0-d) slope: tanh(slope * x)"""
+    slope: jax.Array
+
+    def __init__(self, slope, key=None):
+        self.slope = jnp.asarray(slope, dtype=float)
+
+    def __call__(self, x):
+        return jnp.tanh(self.slope * x)
+
+
+def hyper_ob(kind, d, m, hp_shapes, transforms, order=None, tshape=(1,), adaptive=False):
     din = {"ODE": 1, "statio": d, "nonstatio": 1 + d}[kind]
     hid = 2
     keys = order or ["a", "b"][:len(hp_shapes)]
     nin = sum(int(np.prod(s)) if s else 1 for s in hp_shapes)
     def build():
-        inner = _MLP(key=jax.random.PRNGKey(1), eqx_list=((eqx.nn.Linear, din, hid), (jnp.tanh,), (eqx.nn.Linear, hid, m)))
-        sizes = [hid * din, hid, m * hid, m]          # weight, bias, weight, bias : tree_leaves order
+        act = (AdaptiveTanh, 1.0) if adaptive else (jnp.tanh,)          # adaptive: the inner network has a 0-d trainable leaf
+        inner = _MLP(key=jax.random.PRNGKey(1), eqx_list=((eqx.nn.Linear, din, hid), act, (eqx.nn.Linear, hid, m)))
+        sizes = [hid * din, hid] + ([1] if adaptive else []) + [m * hid, m]          # tree_leaves order
         total = sum(sizes)
         H = Opaque("H", nin + 1, total)
         To = OpaqueFn("To", [(din,), (m,) if m > 1 else (), ()], (m,))
@@ -191,12 +218,15 @@ def hyper_ob(kind, d, m, hp_shapes, transforms, order=None, tshape=(1,)):
             o = 0
             W1 = [[hv[o + i * din + j] for j in range(din)] for i in range(hid)]; o += hid * din
             b1 = hv[o:o + hid]; o += hid
+            slope = P.ONE
+            if adaptive:
+                slope = hv[o]; o += 1
             W2 = [[hv[o + i * hid + j] for j in range(hid)] for i in range(m)]; o += m * hid
             b2 = hv[o:o + m]
             if wrong:
                 b1, b2 = b1[::-1], b2
                 W1 = [row[::-1] for row in W1] if din > 1 else [[w + 1 for w in row] for row in W1]
-            hdn = [P.unary("tanh", sum((W1[i][j] * inp[j] for j in range(din)), P.ZERO) + b1[i]) for i in range(hid)]
+            hdn = [P.unary("tanh", slope * (sum((W1[i][j] * inp[j] for j in range(din)), P.ZERO) + b1[i])) for i in range(hid)]
             out = [sum((W2[i][j] * hdn[j] for j in range(hid)), P.ZERO) + b2[i] for i in range(m)]
             if transforms:
                 out = [P.app("To", j, (), inp + out + [cpar[()]]) for j in range(m)]
@@ -206,7 +236,7 @@ def hyper_ob(kind, d, m, hp_shapes, transforms, order=None, tshape=(1,)):
                     inputs=[Inp("th", (1,)), Inp("t", tshape), Inp("x", (max(d, 1),)), Inp("a", shapes[0]), Inp("b", shapes[1]),
                             Inp("cpar", ())])
     return EqObligation(f"C10/HYPERPINN.eval_nn/ensures[{kind},d={d},m={m},hyperparams={'/'.join(keys)}:{hp_shapes},transforms={int(transforms)}"
-                        f"{'' if tshape == (1,) else ',t=' + str(tshape)}]",
+                        f"{'' if tshape == (1,) else ',t=' + str(tshape)}{',inner_network_with_a_scalar_leaf' if adaptive else ''}]",
                         build, ["jinns.utils._hyperpinn:HYPERPINN.eval_nn", "jinns.utils._hyperpinn:HYPERPINN._hyper_to_pinn",
                                 "jinns.utils._hyperpinn:_get_param_nb", PM + "PINN.__call__"])
 
@@ -302,6 +332,11 @@ def obligations(tier):
             obs.append(pinn_ob(kind, d, 1, tshape, None, (), True, False))              # transform returning a scalar
             obs.append(pinn_ob(kind, d, 3, tshape, jnp.s_[1:3], "same", False, False))  # output slice
             obs.append(pinn_ob(kind, d, 3, tshape, jnp.s_[0:1], (3,), True, False))
+    # user networks whose raw output is a 0-d value or carries a unit leading axis: the wrapper still returns (m,)
+    obs.append(pinn_ob("statio", 2, 1, (1,), None, "same", False, False, raw="scalar"))
+    obs.append(pinn_ob("ODE", 0, 1, (), None, "same", False, True, raw="scalar"))
+    obs.append(pinn_ob("statio", 1, 3, (1,), None, "same", False, False, raw="row"))
+    obs.append(pinn_ob("nonstatio", 1, 3, (1,), jnp.s_[1:3], "same", False, False, raw="row"))
     obs.append(create_pinn_ob(True))
     obs.append(create_pinn_ob(False))
     obs.append(create_pinn_ob(True, (jnp.s_[0:2], jnp.s_[-1])))         # last component given as the integer -1
@@ -324,6 +359,8 @@ def obligations(tier):
         if kind == "ODE":
             obs.append(hyper_ob(kind, d, 2, [(), (2,)], False, tshape=()))      # a scalar time, as ODE batches give under vmap
         obs.append(hyper_ob(kind, d, 2, [(), (2,)], True))
+        if kind == "statio":
+            obs.append(hyper_ob(kind, d, 1, [()], False, adaptive=True))
         if kind == "statio":        # matrix-valued designated parameters: flattened one after the other (row-major each)
             obs.append(hyper_ob(kind, d, 1, [(2, 2), (2, 3)], False))
         obs.append(hyper_ob(kind, d, 1, [(), (2,)], False, order=["b", "a"]))     # list order differs from the dict's key order
